@@ -37,6 +37,7 @@ type seqOpts struct {
 	TwoTier   bool // only the L1/L2 configurations
 	GetE      bool // include get-with-expiry among the generated commands
 	Directed  bool // also run the directed mixed-tier multi-key gets
+	ExtraCfgs []StackCfg
 	Probe     func(sc Scenario, i int, st *Stack, d *Driver, ob StepObs) []Violation
 }
 
@@ -141,13 +142,14 @@ func runSequences(rep *Report, tier string, seed int64, perCfg int, o seqOpts, a
 	d := StartDriver()
 	defer d.Close()
 	distinct := map[string]bool{}
-	for ci, cfg := range fullStackConfigs(tier) {
+	for ci, cfg := range append(fullStackConfigs(tier), o.ExtraCfgs...) {
 		if o.TwoTier && cfg.Orca != "l1l2" {
 			continue
 		}
 		var directed []Scenario
 		if o.Directed && cfg.Orca == "l1l2" {
 			directed = mixedTierGets(cfg, fmt.Sprintf("%s-%d-mixed", rep.Property, ci))
+			directed = append(directed, hotKeyWrites(cfg, fmt.Sprintf("%s-%d-hot", rep.Property, ci))...)
 		}
 		for n := -len(directed); n < perCfg; n++ {
 			var sc Scenario
@@ -251,9 +253,56 @@ func mixedTierGets(cfg StackCfg, id string) []Scenario {
 				c.NoopEnd, c.NoopOpq = true, opq
 			}
 			feed(conn, c)
+			// the same get again, without the harness's trailing no-op: all of its answer must arrive unprompted
+			sc.Steps = append(sc.Steps, Step{Kind: "evict", Tier: "L1", Key: lose})
+			sc.Steps = append(sc.Steps, Step{Kind: "feed", Conn: conn, Cmd: c, Prompt: true})
 		}
 	}
 	return []Scenario{sc}
+}
+
+// hotKeyWrites: every mutating command on a key that BOTH tiers hold (and on one only L2 holds),
+// through each port and protocol, followed by a get of the key on each port — whatever the
+// command does to L1 (update, replace-if-present, invalidate), the next reads must be the single
+// map's.
+func hotKeyWrites(cfg StackCfg, id string) []Scenario {
+	var out []Scenario
+	kinds := []string{"set", "add", "replace", "append", "prepend", "delete", "touch", "gat"}
+	for wi, wconn := range []string{"m", "t", "B"} {
+		sc := Scenario{ID: fmt.Sprintf("%s-%s", id, wconn), Stack: cfg}
+		sc.Conns = []ConnCfg{{ID: "m", Port: "main", Proto: "bin"}, {ID: "t", Port: "main", Proto: "text"}, {ID: "B", Port: "batch", Proto: "bin"}}
+		feed := func(conn string, c Command) { sc.Steps = append(sc.Steps, Step{Kind: "feed", Conn: conn, Cmd: c}) }
+		opq := uint32(1000 * (wi + 1))
+		for ki, kind := range kinds {
+			if kind == "gat" && wconn == "t" {
+				continue
+			}
+			for _, hot := range []bool{true, false} {
+				opq++
+				k := []byte(fmt.Sprintf("h%d%v", ki, hot))
+				feed("m", Command{Kind: "set", Key: k, Flags: 9, Data: []byte("-mid-"), Opaque: opq})
+				if hot {
+					feed("m", Command{Kind: "get", Keys: []GetKey{{Key: k, Opaque: opq}}})
+				} else {
+					lose := k
+					if cfg.L1 == "chunked" {
+						lose = append(append([]byte{}, k...), []byte("-meta")...)
+					}
+					sc.Steps = append(sc.Steps, Step{Kind: "evict", Tier: "L1", Key: lose})
+				}
+				c := Command{Kind: kind, Key: k, Flags: 5, Exptime: 0, Data: []byte("NEW"), Opaque: opq}
+				if kind == "touch" || kind == "gat" {
+					c.Exptime = 500
+				}
+				feed(wconn, c)
+				feed("B", Command{Kind: "get", Keys: []GetKey{{Key: k, Opaque: opq}}})
+				feed("t", Command{Kind: "get", Keys: []GetKey{{Key: k, Opaque: opq}}})
+				feed("m", Command{Kind: "get", Keys: []GetKey{{Key: k, Opaque: opq}}})
+			}
+		}
+		out = append(out, sc)
+	}
+	return out
 }
 
 func init() {
